@@ -295,9 +295,9 @@ V_ARGS = [
 ]
 
 
-def variadic_children(spec, base, name, new_name):
+def variadic_children(spec, base, name, new_name, alphabet=None):
     inherited = list(rg.members(spec, base))
-    for args in V_ARGS:
+    for args in (V_ARGS if alphabet is None else alphabet):
         av = []
         for a in (args or ()):
             rg.vars_of(rg.freeze(a), av)
@@ -329,12 +329,13 @@ def variadic_specs(depth):
             yield s1
             if depth < 3:
                 continue
-            for c2 in variadic_children(s1, "A1", "A2", "z2"):
+            for c2 in variadic_children(s1, "A1", "A2", "z2", V_ARGS3):
                 if c2["fields"] and c2["fields"][0][0] != "z2":
                     continue       # 3rd level: no further overrides (keeps the family small)
                 yield {"classes": [*s1["classes"], c2]}
 
 
+V_ARGS3 = [[UTS], [INT, UTS], [("unpack_tuple", INT, STR)], [INT], [var("T"), UTS], [UTS, var("T")], [STR, UTS, var("T")]]
 V_LEAF_ARGS = [[], [INT], [INT, STR], [STR, BOOL, List_(INT)], [BOOL, INT]]
 
 
@@ -371,6 +372,8 @@ def _enumerate_specs(tier):  # noqa: C901
             yield "three_level", multi, s
         for s in v_shapes(4, 2, "S", "S", same_names=False):
             yield "v_shape", multi, s
+        for s in v_shapes(2, 2, "S", "S", same_names=True):
+            yield "v_shape_same_names", multi, s
         for s in w_joins():
             yield "w_join", multi, s
         for s in variadic_specs(2):
@@ -382,10 +385,10 @@ def _enumerate_specs(tier):  # noqa: C901
             yield "two_level", multi, s
         for s in chains("M", ["S"]):
             yield "two_level_nt_td", ("namedtuple", "typeddict"), s
-        for s in chains("S", ["M", "Sg"]):
+        for s in chains("S", ["Mq", "Sg"]):
             yield "three_level", multi, s
         for s in chains("S", ["S", "S", "S"]):
-            yield "four_level", ("dataclass",), s
+            yield "four_level", multi, s
         for s in v_shapes(6, 6, "S", "M", same_names=False):
             yield "v_shape", multi, s
         for s in v_shapes(4, 4, "S", "S", same_names=True):
@@ -395,7 +398,7 @@ def _enumerate_specs(tier):  # noqa: C901
         for s in w_joins():
             yield "w_join", multi, s
         for s in variadic_specs(3):
-            yield "variadic", ("dataclass", "attrs"), s
+            yield "variadic", ("dataclass", "attrs") if len(s["classes"]) < 3 else ("dataclass",), s
 
 
 QUICK_PAIRS = [(0, 1), (3, 2), (1, 0)]
@@ -648,6 +651,8 @@ class Evaluator:
             try:
                 resolved[digest(a)] = rg.resolve(spec, leaf, a)
             except rg.Illegal:
+                if a is None:
+                    raise
                 resolved[digest(a)] = None
         alternatives = {}
         for f in rg.field_names(spec, leaf):
@@ -661,7 +666,7 @@ class Evaluator:
         for args in leaf_parametrisations(spec, leaf, self.tier):
             ref = resolved[digest(args)]
             if ref is None:
-                report.skip("illegal for Python typing: wrong number of type arguments for the leaf")
+                report.skip("illegal for Python typing: the leaf does not take this argument list (number of arguments)")
                 continue
             self.case(spec, kind, cls, args, ref, alternatives)
 
@@ -691,6 +696,8 @@ class Evaluator:
                 return
             raise
         report.count("parametrisations", 1)
+        for feature in argf:
+            report.count(f"leaf_feature.{feature}", 1)
         fields = sorted(ref)
         whole_shape = rg.hierarchy_shape(spec, leaf, argf)
         try:
@@ -921,12 +928,17 @@ def run(tier):
 def SANITY(report, tier):  # noqa: N802
     problems = []
     for kind in KINDS_ALL:
-        if report.outcomes[f"{kind}:created"] == 0:
+        # (a kind whose oracle already disagreed - violations recorded - did have its chance to disagree)
+        disagreed = any(v["sig"]["kind"] == kind for v in report.violations.values())
+        if report.outcomes[f"{kind}:created"] == 0 and not disagreed:
             problems.append(f"no loader was ever created for kind {kind}")
-        if report.outcomes[f"{kind}:other_substitution_rejected"] == 0:
+        if report.outcomes[f"{kind}:other_substitution_rejected"] == 0 and not disagreed:
             problems.append(f"no datum of another substitution was ever rejected for kind {kind}")
-        if report.outcomes[f"{kind}:conforming_accepted"] == 0:
+        if report.outcomes[f"{kind}:conforming_accepted"] == 0 and not disagreed:
             problems.append(f"no conforming alternative datum was ever accepted for kind {kind}")
+    for feature in ("bare", "bare_bound", "bare_constrained"):
+        if report.counters[f"leaf_feature.{feature}"] == 0:
+            problems.append(f"no leaf was ever used {feature}")
     if len(report.nontrivial) < 1000:
         problems.append(f"only {len(report.nontrivial)} non-trivial cases")
     if report.counters["hierarchies.family.variadic"] == 0:
